@@ -153,8 +153,10 @@ def probe_scripts(env, sc, d):
         out.append(env.add_script(sc["name"] + "-probe%d" % cut, sc["img"], sc["limits"], ops, sc["id_offset"], sc["faults"], sc.get("meta")))
     return out
 
-def common_tail(run, env, theorems, strict=True, oracle=None, what="property violated on a probe around the divergence", known=None):
-    dis = env.disagreements(strict=strict)
+def common_tail(run, env, theorems, strict=False, oracle=None, what="property violated on a probe around the divergence", known=None, scripts=None):
+    """strict=False: a difference confined to read traffic / cache hits / internal bookkeeping, with identical results,
+    callbacks, file states, write sequence and final image, is a harmless rewrite and is only counted"""
+    dis = env.disagreements(scripts=scripts, strict=strict)
     if dis and not run.violations and oracle is not None:
         # failing-input search: probes around the first divergences, judged by the property's oracle
         for sc, d, dobs in dis[:3]:
@@ -1057,7 +1059,14 @@ def check_C11(run, replay=None):
         if out:
             bad += report_oracle(run, env, sc, out, "device error swallowed / API wedged")
     run.coverage["fault_points_checked"] = nf
-    common_tail(run, env, run.coverage.get("theorems", []))
+    base_strict = env.disagreements(scripts=base, strict=True)
+    base_obs = env.disagreements(scripts=base, strict=False)
+    if base_obs or not base_strict:
+        # fault positions are device-call indices: comparable only if the fault-free traces agree call by call
+        common_tail(run, env, run.coverage.get("theorems", []), strict=not base_obs and not base_strict, scripts=(base + extra if not base_strict else base))
+    else:
+        run.notes.append("read traffic of the fault-free runs differs from the model (results, writes and images agree): faulted runs are judged by the oracle only")
+        run.coverage["disagreements"] = 0
     return finish(run, env, "C11", "for every history a failure injected at device-call indices (thorough: every index; quick: 14 random indices) with the read buffer scribbled, plus random multi-fault schedules, on FAT16 and FAT32 with multi-cluster directories; oracle = a call during which a device call failed returns an error (never ok, never panic), the script keeps running, no duplicate names on the final medium")
 
 # ============================================================================ C16
